@@ -409,8 +409,14 @@ func (nz *normaliser) intTemps(l []ast.Stmt) []ast.Stmt {
 			if k < last || true {
 				// nothing e reads may be assigned before the last use has been evaluated: the last statement may assign
 				// only on its left side, which is evaluated after its right side
+				storesLast := "" // U11': `x = …t…` / `x += …t…` as the last use: the right side is evaluated before x is stored
+				if as2, ok := out[k].(*ast.AssignStmt); ok && k == last && (as2.Tok == token.ASSIGN || as2.Tok == token.ADD_ASSIGN) && len(as2.Lhs) == 1 && len(as2.Rhs) == 1 {
+					if id, ok := as2.Lhs[0].(*ast.Ident); ok && nz.assignCount(as2.Rhs[0], id.Name) == 0 {
+						storesLast = id.Name
+					}
+				}
 				for n := range reads {
-					if n != "c" && nz.assignCount(out[k], n) > 0 {
+					if n != "c" && n != storesLast && nz.assignCount(out[k], n) > 0 {
 						okUse = false
 					}
 				}
@@ -699,7 +705,23 @@ func (nz *normaliser) byteAssembly(l []ast.Stmt) []ast.Stmt {
 			terms = append(terms, e)
 			return true
 		}
-		if !collect(as.Rhs[0]) {
+		// U9': an outer conversion around the assembly
+		outer := ""
+		asm := as.Rhs[0]
+		if ce, ok := asm.(*ast.CallExpr); ok && len(ce.Args) == 1 && ce.Ellipsis == token.NoPos && reConvName.MatchString(nz.s(ce.Fun)) {
+			inner := ce.Args[0]
+			for {
+				p, ok := inner.(*ast.ParenExpr)
+				if !ok {
+					break
+				}
+				inner = p.X
+			}
+			if be, ok := inner.(*ast.BinaryExpr); ok && be.Op == token.OR {
+				outer, asm = nz.s(ce.Fun), inner
+			}
+		}
+		if !collect(asm) {
 			continue
 		}
 		w := len(terms)
@@ -768,6 +790,13 @@ func (nz *normaliser) byteAssembly(l []ast.Stmt) []ast.Stmt {
 			order = "Big"
 		default:
 			continue
+		}
+		if outer != "" {
+			// the inner conversion must be the identity on what UintW yields
+			if conv != fmt.Sprintf("uint%d", 8*w) {
+				continue
+			}
+			conv = outer
 		}
 		cp := nz.clone(out[i]).(*ast.AssignStmt)
 		cp.Rhs[0] = nz.parseExprText(fmt.Sprintf("%s(binary.%sEndian.Uint%d(%s[offset : offset+%d]))", conv, order, 8*w, blk, w))
